@@ -371,15 +371,32 @@ assumptions(PROP, [
     "loads of different levels differ by >= 3 % (so that the log-log regressions are well conditioned)",
     "ValueError raised by FatigueData / an analyser (their documented guards) marks the data set inadmissible for that analyser: "
     "counted as tolerated, and the transformed data set must raise ValueError as well",
-    "Elementary/Probit parameters are compared with rtol 1e-9 (closed-form regressions; observed deviations are <= 1e-12); "
+    "Elementary/Probit parameters are compared with rtol 1e-9 (closed-form regressions; observed deviations are <= 1e-11); "
     "NaN == NaN and inf == inf count as equal",
     "Probit: TS, SD, ND are compared only if the probit regression is defined, i.e. |corr(normal score of the Rossow failure "
-    "probabilities, lg load)| >= 0.01 over the infinite-zone levels (otherwise the slope is rounding noise; counted as label probit_undetermined)",
+    "probabilities, lg load)| >= 0.01 over the infinite-zone levels (otherwise the slope is rounding noise; label probit_undetermined)",
     "TS of the Elementary analyser (TN**(1/k_1)) is compared only if |k_1| >= 0.05",
-    "MaxLikeInf / MaxLikeFull: asserted at likelihood level (reference log-likelihood written in the harness, evaluated on the ORIGINAL "
-    "data for both results, |difference| <= 1e-6) - see the decision recorded at the ML sub-checks; cases whose finite-zone fractures are collinear "
-    "(likelihood unbounded for TN -> 1) are outside the ML domain",
+    "MaxLikeInf / MaxLikeFull: the reference log-likelihood is written in the harness (normal density of lg N along the slope for every "
+    "fracture, normal cdf of lg(L/SD)/s for every test at or below the highest run-out level, irrelevant run-outs dropped as documented) and the "
+    "library's own value at its estimate is checked against it; both runs' estimates are judged on the ORIGINAL data: |difference| <= 1e-6 "
+    "(MaxLikeInf: plus the resolution of its absolute stop criterion xatol = 1e-4 in TS, 3e-6 at TS = 1.1), parameters rtol 1e-3 where the "
+    "likelihood identifies them (SD/ND only if the infinite zone holds a fracture; k_1 with an absolute floor of 1e-3)",
+    "ML sub-checks: series whose finite-zone fractures are collinear (likelihood unbounded for TN -> 1) and series without run-outs "
+    "(MaxLikeFull is a no-op there) are outside their domain; 'ML >= start' compares with the Elementary estimate with k_1 folded to |k_1| "
+    "for MaxLikeFull, because that analyser cannot represent a negative slope",
+    "the supremum of the likelihood used to classify F14 is computed in the harness: least squares over all fractures (k_1 >= 0) plus a concave "
+    "probit fit (BFGS, analytic gradient) over the infinite zone; it agrees with every converged library run to 1e-13",
 ])
+
+
+def zero_variance_chain(extra):
+    """F09 class, decided on the public pearl-chain estimator: the cycles shifted to the common load level agree to the
+    last bits (relative spread <= 1e-12), i.e. the scatter regression runs on a (numerically) constant sample."""
+    nc = extra.get("normed_cycles") if extra else None
+    if not nc:
+        return False
+    lo, hi = min(nc), max(nc)
+    return lo > 0 and (hi - lo) <= 1e-12 * hi
 
 
 def _expected(base, kind, c):
@@ -417,7 +434,7 @@ def _compare_closed(name, rows, kind, c, perm, ctx, index=None, index2=None):
         if bad:
             # F09: finite-zone fractures exactly on a line -> the pearl chain regresses on a zero-variance sample:
             # TN (and TS = TN**(1/k)) come out as NaN or as rounding garbage instead of 1
-            if ctx.known("F09"):
+            if zero_variance_chain(a[3]) and zero_variance_chain(b[3]) and ctx.known("F09"):
                 skip |= {"TN", "TS"}
             else:
                 raise Violation("%s: TN = %r although the finite-zone fractures lie exactly on a line (no scatter: TN should be 1)"
@@ -522,7 +539,7 @@ def exact_recovery(case, ctx):
     label_structure(ctx, s)
     ctx.label("dyadic" if tr["dyadic"] else "generic")
     for name in ("Elementary", "Probit"):
-        st_, res, wl, _ = analyse(name, rows)
+        st_, res, wl, est = analyse(name, rows, want_estimator=True)
         if st_ == "ValueError":
             ctx.tolerate("%s: ValueError %s" % (name, res[:50]))
             continue
@@ -535,7 +552,7 @@ def exact_recovery(case, ctx):
         bad_tn = not abs(res["TN"] - 1.0) <= 1e-6
         bad_ts = name == "Elementary" and not abs(res["TS"] - 1.0) <= 1e-6
         if bad_tn or bad_ts:
-            if ctx.known("F09"):
+            if zero_variance_chain(est) and ctx.known("F09"):
                 ctx.label("F09_class")
             else:
                 raise Violation("%s: exact data (no scatter) returned TN = %r, TS = %r, expected 1" % (name, res["TN"], res["TS"]),
